@@ -423,7 +423,9 @@ def run_sequence(build, driver, ops, tag, timeout=120, known=None):
         except OSError:
             pass
     vs, inc, stats = judge(driver, ops, exps, out, err, rc, known)
-    dig = digest_obj([l for l in out.split("\n") if l.split(" ", 1)[0] in ("RES", "LIVE", "EV")])
+    # absolute heap block counts of the repeated-call measurement are not part of the execution's identity
+    dig = digest_obj([(l.split("[GROW]")[0] if "[GROW]" in l else l)
+                      for l in out.split("\n") if l.split(" ", 1)[0] in ("RES", "LIVE", "EV")])
     return {"violations": vs, "inconclusive": inc, "stats": stats, "digest": dig}
 
 
@@ -554,8 +556,13 @@ class C06Engine(object):
             r1 = list(ex.map(lambda si: self.execute(si[1], "t%d" % si[0]), enumerate(specs)))
         with cf.ThreadPoolExecutor(max_workers=3) as ex:
             r2 = list(ex.map(lambda si: self.execute(si[1], "u%d" % si[0]), enumerate(specs)))
-        mism = sum(1 for a, c in zip(r1, r2) if a.get("digest") != c.get("digest") or
-                   json.dumps(a.get("violations"), sort_keys=True) != json.dumps(c.get("violations"), sort_keys=True))
+        mism = 0
+        for spec, a, c in zip(specs, r1, r2):
+            if a.get("digest") != c.get("digest") or json.dumps(a.get("violations"), sort_keys=True) != json.dumps(
+                    c.get("violations"), sort_keys=True):
+                mism += 1
+                self.selftest.setdefault("mismatch_samples", []).append(
+                    {"driver": spec["driver"], "ops": spec["ops"][:30], "violations": [a.get("violations"), c.get("violations")]})
         self.selftest["determinism_sequences"] = len(specs)
         self.selftest["determinism_mismatches"] = mism
         # the generator does not depend on the driver's own hash order
